@@ -83,6 +83,8 @@ def cases(draw, name, tier):
     case = draw(base_case(name, max_len=8 if tier == "quick" else 12, max_src=4 if tier == "quick" else 5,
                           aliasing=name in ("zip", "zip_longest", "map", "chain", "compress")))
     # "the same data" may be given as list, one-shot iterator or async generator
+    if name == "iter_sentinel":
+        case["srcs"][0]["fl"] = draw(st.sampled_from(["def", "def", "async", "partial", "obj", "iterobj", "aiterobj"]))
     if name != "iter_sentinel":
         for s in case["srcs"]:
             s["fl"] = draw(st.sampled_from(["agen", "agen", "list", "iter", "seq", "reiter", "areiter", "aproxy", "sgen"]))
